@@ -32,7 +32,8 @@ type treeCase struct {
 	KeyDist  string   `json:"key_dist"`
 	ValDist  string   `json:"val_dist"`
 	Persist  bool     `json:"persistent"`
-	Fill     bool     `json:"fill_first"` // no DeleteBelow until the first page-count boundary was crossed
+	Fill     bool     `json:"fill_first"`              // no DeleteBelow until the first page-count boundary was crossed
+	Move     bool     `json:"move_buffer_on_new_page"` // fault injection: the backing buffer moves at every fresh page allocation
 	Tail     []string `json:"trace_tail,omitempty"`
 }
 
@@ -365,8 +366,18 @@ func runTree(c *Ctx, persist bool) {
 			cs.KeyDist = lab.Pick(rng, []string{"seq_up", "seq_down", "random"})
 			cs.Fill = true
 		}
+		if i%3 == 2 {
+			// a page size drawn from the whole range (multiple of 16, at least 4 keys per node)
+			cs.PageSize = 16 * rng.Range(5, os.Getpagesize()/16)
+		}
+		if !persist && (nops <= 3000 || (nops <= 20000 && cs.PageSize >= 512)) && i%2 == 0 {
+			cs.Move = true
+		}
+		z.VerifSetPageSize(cs.PageSize)
+		z.VerifSetTreeMoveOnNewNode(cs.Move)
 		c.J.Case(cs)
 		treeOne(c, rng, cs)
+		z.VerifSetTreeMoveOnNewNode(false)
 		if i%10 == 0 {
 			c.J.Rewind()
 		}
@@ -430,7 +441,7 @@ func treeOne(c *Ctx, rng *lab.RNG, cs treeCase) {
 					}
 				}
 				r.Obs("sets", 1)
-				r.DistinctKey("%d/set/%s/%s/%d", cs.PageSize, cs.KeyDist, cs.ValDist, dec)
+				r.DistinctKey("%d/set/%s/%s/%d/%v", cs.PageSize, cs.KeyDist, cs.ValDist, dec, cs.Move)
 				if cs.Persist {
 					sa := m.t.Stats()
 					if sa.NumPages > sb.NumPages && sa.NumPagesFree > 0 {
